@@ -453,9 +453,18 @@ func (w *worker) do() {
 	case p < 48:
 		i := in{Kind: "create", Key: key, Owner: owners[w.rng.IntN(len(owners))], Phase: "running", Token: tok}
 		r := res.New("ns", typ, id)
+
+		// every third create re-submits an object the client still holds from an earlier incarnation (its version, owner,
+		// timestamps, phase and finalizers are whatever they were): Create stores version 1 under the requested owner all the same
+		if l, ok := w.last[key]; ok && w.rng.IntN(3) == 0 {
+			r = l.DeepCopy()
+			i.Phase, i.Fins = r.Metadata().Phase().String(), finsOf(r.Metadata())
+			i.Owner = r.Metadata().Owner() // (an object that already names another owner than the requested one is refused as invalid input: not judged)
+		}
+
 		res.SpecOf(r).Token = tok
 
-		if w.rng.IntN(4) == 0 {
+		if i.Fins == "" && w.rng.IntN(4) == 0 {
 			r.Metadata().Finalizers().Add("f0")
 			i.Fins = "f0"
 		}
@@ -477,9 +486,23 @@ func (w *worker) do() {
 	case p < 84:
 		var r resource.Resource
 
-		if l, ok := w.last[key]; ok && w.rng.IntN(8) != 0 {
+		handBuiltOwner := false
+
+		switch l, ok := w.last[key]; {
+		case ok && w.rng.IntN(8) == 0:
+			// a hand-built object: only the version (and the owner) are taken from what was read, everything else - including the
+			// creation time the constructor stamps - is new; the store keeps its own creation time
+			r = res.New("ns", typ, id)
+			r.Metadata().SetVersion(l.Metadata().Version())
+
+			if w.rng.IntN(2) == 0 {
+				_ = r.Metadata().SetOwner(l.Metadata().Owner())
+			} else {
+				handBuiltOwner = true // the object will name the owner the caller claims (below): the STORED owner decides, not the object's
+			}
+		case ok && w.rng.IntN(8) != 0:
 			r = l.DeepCopy()
-		} else {
+		default:
 			r = res.New("ns", typ, id) // never seen: undefined version
 		}
 
@@ -508,8 +531,13 @@ func (w *worker) do() {
 		i := in{Kind: "update", Key: key, Owner: owners[w.rng.IntN(len(owners))], ObjOwner: r.Metadata().Owner(), Ver: r.Metadata().Version().Value(),
 			Phase: r.Metadata().Phase().String(), Fins: finsOf(r.Metadata()), Token: tok}
 
-		if w.rng.IntN(3) != 0 {
+		if w.rng.IntN(3) != 0 && !handBuiltOwner {
 			i.Owner = r.Metadata().Owner() // usually the matching owner
+		}
+
+		if handBuiltOwner {
+			_ = r.Metadata().SetOwner(i.Owner)
+			i.ObjOwner = i.Owner
 		}
 
 		opts := []state.UpdateOption{state.WithUpdateOwner(i.Owner)}
